@@ -135,6 +135,10 @@ func (p *FunctionBuilder) CreateFunction(m *bmodel.MethodEntry) (*gmodel.Functio
 	if err != nil {
 		return nil, err
 	}
+	if (names["i"] || names["e"]) && hasSliceLoop(assignments) {
+		// The loop of a slice copy declares i and e: it would hide the operand of that name.
+		return nil, logger.Errorf("%v: the names i and e are used by the loop that copies a slice; rename the parameter", p.fset.Position(m.Method.Pos()))
+	}
 
 	preProcess, err := p.buildManipulator(m.Opts.PreProcess, src, dst, additionalArgs, m.RetError())
 	if err != nil {
@@ -160,6 +164,21 @@ func (p *FunctionBuilder) CreateFunction(m *bmodel.MethodEntry) (*gmodel.Functio
 	}
 
 	return fn, nil
+}
+
+// hasSliceLoop returns true if one of the assignments, at any depth, is a slice copy that is written as a loop.
+func hasSliceLoop(assignments []gmodel.Assignment) bool {
+	for _, a := range assignments {
+		switch assignment := a.(type) {
+		case gmodel.SliceLoopAssignment, gmodel.SliceTypecastAssignment:
+			return true
+		case gmodel.NestStruct:
+			if hasSliceLoop(assignment.Contents) {
+				return true
+			}
+		}
+	}
+	return false
 }
 
 // createVar creates a gmodel.Var from a types.Var.
